@@ -93,6 +93,7 @@ class Interp:
         self.objects = objects
         self.created = []
         self.yields = None
+        self.closures = {}
         self.exact = exact      # exact: follow return / raise / continue precisely, give up (Unknowable) on anything unknown
         self.result = None
 
@@ -321,7 +322,7 @@ class Interp:
                         return U
                     bound[k.arg] = v
                 try:
-                    r = call(fdef, bound, funcs=self.funcs, budget=self)
+                    r = call(fdef, bound, consts=self.closures.get(fn), funcs=self.funcs, budget=self)
                 except Unknowable:
                     if self.exact:
                         raise
@@ -431,6 +432,13 @@ class Interp:
                 return "exit"
             if isinstance(st, (ast.Break, ast.Continue)):
                 return "break" if isinstance(st, ast.Break) else "continue"
+            if isinstance(st, ast.FunctionDef) and not st.decorator_list:
+                # a local helper: interpreted when called, reading the enclosing names as they are at the call (late binding)
+                self.funcs = dict(self.funcs)
+                self.funcs[st.name] = st
+                self.closures[st.name] = self.env
+                self.env.pop(st.name, None)
+                continue
             if isinstance(st, (ast.FunctionDef, ast.ClassDef)):
                 self.env[st.name] = UNKNOWN
                 continue
